@@ -27,24 +27,24 @@ open UtilModel
 /-- error values of results -/
 inductive Err where
   | nil | custom | canceled | deadline
-deriving DecidableEq, Repr, Inhabited
+deriving DecidableEq, Repr, Inhabited, Hashable
 
 /-- kind of await: `Await`, `AwaitWithErrCh`, `AwaitWithCancelCh` -/
 inductive AK where
   | ctx | errch | cancelch
-deriving DecidableEq, Repr, Inhabited
+deriving DecidableEq, Repr, Inhabited, Hashable
 
 /-- what the environment did to the awaiter's error / cancel channel -/
 inductive Fire where
   | closed | sent (e : Err)
-deriving DecidableEq, Repr, Inhabited
+deriving DecidableEq, Repr, Inhabited, Hashable
 
 /-- a promise the container can hold: a plain promise of the table, or the pre-resolved promise
 made by `PromiseContainer.SetResult` call `t` (`NewPromiseWithResult`) -/
 inductive PRef where
   | plain (p : Nat)
   | fixed (t : Nat) (e : Err)
-deriving DecidableEq, Repr, Inhabited
+deriving DecidableEq, Repr, Inhabited, Hashable
 
 /-- branch taken by a `select` -/
 inductive Branch where
@@ -52,7 +52,7 @@ inductive Branch where
   | usr   -- the caller's error / cancel channel
   | wait  -- the container's replacement channel
   | res   -- the promise's done channel
-deriving DecidableEq, Repr, Inhabited
+deriving DecidableEq, Repr, Inhabited, Hashable
 
 /-- per-call program counter -/
 inductive TS where
@@ -72,25 +72,25 @@ inductive TS where
   | cInner (k : AK) (r : PRef) (c : Nat)    -- sampled `r`; inside r.AwaitWithCancelCh(ctx, waitCh)
   | cChk1 (k : AK) (c v : Nat)              -- inner await returned (v, Canceled): `ctx.Err() != nil`?
   | cChk2 (k : AK) (c v : Nat)              -- … `select { case <-waitCh: default: }`
-deriving DecidableEq, Repr, Inhabited
+deriving DecidableEq, Repr, Inhabited, Hashable
 
 structure Th where
   ts : TS
   cx : Bool := false            -- the call's context has been cancelled
   ch : Option Fire := none      -- what happened to the call's error / cancel channel
-deriving DecidableEq, Repr, Inhabited
+deriving DecidableEq, Repr, Inhabited, Hashable
 
 structure Prom where
   winner : Option Nat := none          -- the call whose swap found `false`
   res : Option (Nat × Err) := none     -- published result (fields written, done channel closed)
-deriving DecidableEq, Repr, Inhabited
+deriving DecidableEq, Repr, Inhabited, Hashable
 
 structure St where
   proms : List Prom := []
   slot : Option PRef := none
   bc : Bcast := {}
   th : List Th := []
-deriving DecidableEq, Repr
+deriving DecidableEq, Repr, Hashable
 
 inductive Obs where
   | newp (p : Nat)                               -- `env newp p`
@@ -107,7 +107,7 @@ inductive Obs where
   | retCRes (t : Nat)                            -- `ret t cres true`
   | invCAwait (t : Nat) (k : AK)                 -- `inv t cawait ctx|errch|cancelch`
   | quiesce (busy : Bool) (pending : List Nat)   -- `quiesce idle|busy t1 t2 …`
-deriving DecidableEq, Repr
+deriving DecidableEq, Repr, Hashable
 
 inductive Ev where
   | newp (p : Nat)
@@ -133,7 +133,7 @@ inductive Ev where
   | cChk1 (t : Nat)
   | cChk2 (t : Nat)
   | quiesce (busy : Bool) (pending : List Nat)
-deriving DecidableEq, Repr
+deriving DecidableEq, Repr, Hashable
 
 def Ev.obs : Ev → Option Obs
   | .newp p => some (.newp p)
